@@ -122,6 +122,32 @@ def verify(name, all_checks=False, tier="quick", before=False):
         shutil.rmtree(wt, ignore_errors=True)
 
 
+def recheck(name, tier="quick"):
+    """Fast regression: scratch copy of /repo/src with the patch applied, the property's own check pointed at it (no demo, no test
+    suite - those were confirmed when the change was harvested).  Updates checks[<property>] in meta.json."""
+    d = VERIF / "seeded" / name
+    meta = json.loads((d / "meta.json").read_text())
+    prop = meta["property"]
+    tmp = tempfile.mkdtemp(prefix="bldfm-recheck-")
+    try:
+        shutil.copytree("/repo/src", tmp + "/src", ignore=shutil.ignore_patterns("__pycache__"))
+        r = sh(["patch", "-s", "-p1", "-i", str(d / "patch.diff")], cwd=tmp)
+        if r.returncode != 0:
+            print(name, "PATCH-DOES-NOT-APPLY", r.stdout[-200:])
+            return
+        e = dict(os.environ, BLDFM_VERIF_SRC=tmp + "/src", VERIF_EVIDENCE_DIR=tmp + "/ev", VERIF_REPLAY_DIR=tmp + "/rp")
+        t0 = time.time()
+        c = sh([str(VERIF / "check"), prop, "--tier", tier], env=e, cwd=VERIF, timeout=3600)
+        whats = sorted({l.split('"what": "')[1].split('"')[0] for l in c.stdout.splitlines() if '"what": "' in l})
+        meta.setdefault("checks", {})[prop] = {"exit": c.returncode, "violations": whats[:6], "seconds": round(time.time() - t0)}
+        meta["caught_by_own_check"] = c.returncode == 1
+        meta["rechecked_against_repo_commit"] = sh(["git", "-C", "/repo", "log", "--format=%h", "-1"]).stdout.strip()
+        (d / "meta.json").write_text(json.dumps(meta, indent=1) + "\n")
+        print(name, {0: "MISSED", 1: "caught", 2: "INCONCLUSIVE"}.get(c.returncode, c.returncode), whats[:3])
+    finally:
+        shutil.rmtree(tmp, ignore_errors=True)
+
+
 def table():
     rows = []
     for m in sorted((VERIF / "seeded").glob("*/meta.json")):
@@ -142,5 +168,7 @@ if __name__ == "__main__":
     elif a[0] == "verify":
         tier = a[a.index("--tier") + 1] if "--tier" in a else "quick"
         verify(a[1], "--all-checks" in a, tier, "--before" in a)
+    elif a[0] == "recheck":
+        recheck(a[1], a[a.index("--tier") + 1] if "--tier" in a else "quick")
     elif a[0] == "table":
         table()
